@@ -124,3 +124,11 @@ add("C18", "exploration",
     "independent reference trigger predicate (chunk-walking oracle). Triggers outside the generated families are excluded by stated preconditions; 'timed out although a "
     "trigger held' is judged only when the chunk was delivered >= 300 ms before the deadline with a quiet load canary, else inconclusive.",
     "DESIGN.md §3 C18", "recorded callback firings judged online against the transport read log by an independent reference trigger predicate; PRNG callback lists / scripted dialogues / segmentations; timeout bursts for the expiry race")
+
+add("C20", "exploration",
+    "Exploration: util.Queue is driven by one producer and one consumer (Enqueue / Dequeue / DequeueAll / Requeue-of-what-was-just-taken / GetDepth) over 4e6 (quick) to 2e8 "
+    "(thorough) operations across GOMAXPROCS 1/2/4/16 under the race detector (log pipeline proven per worker by a canary race); a consumer-side stream oracle checks the "
+    "byte stream equals the producer's with put-backs re-read first, emptiness and depth bounds; 8 000-100 000 short concurrent histories are checked for linearizability "
+    "against a sequential deque (porcupine, cross-checked); all sequential histories up to length 7 (quick) / 9 (thorough) admissible under the quantifier agree with a "
+    "reference list (exhaustive for that bound only); a logical deadlock watchdog. Concurrent schedules are sampled, not enumerated.",
+    "DESIGN.md §3 C20", "Go race detector + 1-producer/1-consumer stress with stream oracle + porcupine linearizability of recorded histories + exhaustive sequential histories vs reference list")
